@@ -343,8 +343,88 @@ struct OverArray {
     }
 };
 
+// nearest_neighbour over a permuting layer over row-major storage: backend axis k receives outer component P[k]
+template <class R, class T, size_t... P>
+struct OverShuffled {
+    static constexpr size_t N = sizeof...(P);
+    static constexpr size_t perm[N] = {P...};
+    using SB = cb::strided<cv::vector_d<std::size_t, N>, cb::array<cv::vector_d<T, 1>>>;
+    using SH = cb::shuffle<SB, std::index_sequence<P...>>;
+    using B = cb::nearest_neighbour<SH, cv::vector_d<R, N>>;
+    static std::string name()
+    {
+        std::string s = "nn/shuffle<";
+        for (size_t k = 0; k < N; ++k) {
+            s += std::to_string(perm[k]) + (k + 1 < N ? "," : "");
+        }
+        return s + ">/strided-array/N=" + std::to_string(N) + "/R=" + tname<R>() + "/T=" + tname<T>();
+    }
+    static Verdict run(const Case & c)
+    {
+        typename SB::configuration_t e;
+        uint64_t cells = 1;
+        bool unequal = false;
+        for (size_t k = 0; k < N; ++k) {
+            e[k] = c.ext[k];
+            cells *= c.ext[k];
+            unequal = unequal || c.ext[k] != c.ext[0];
+        }
+        covfie::field<SB> s(pack(e));
+        {
+            typename covfie::field<SB>::view_t sv(s);
+            for (uint64_t r = 0; r < cells; ++r) {
+                typename covfie::field<SB>::coordinate_t t;
+                uint64_t q = r;
+                for (size_t k = N; k-- > 0;) {
+                    t[k] = q % c.ext[k];
+                    q /= c.ext[k];
+                }
+                sv.at(t)[0] = T(r + 1);
+            }
+        }
+        covfie::field<B> f(pack(std::monostate{}, std::monostate{}, typename SB::owning_data_t(s.backend())));
+        typename covfie::field<B>::view_t w(f);
+        typename covfie::field<B>::coordinate_t x;
+        bool nt = false;
+        for (size_t k = 0; k < N; ++k) {
+            x[perm[k]] = from_bits<R>(c.xbits[k]);   // xbits[k] belongs to storage axis k
+            nt = nt || near_half(x[perm[k]]);
+            if (!(ld(x[perm[k]]) > -0.5L && ld(x[perm[k]]) < ld(c.ext[k]) - 0.5L)) {
+                return std::string("bad case: coordinate outside the documented domain");
+            }
+        }
+        uint64_t rank = uint64_t(w.at(x)[0]) - 1;
+        Hasher h;
+        h.vec(c.ext).vec(c.xbits);
+        if (unequal) {
+            label("permuted axes with unequal extents");
+        }
+        record(name(), nt || unequal, h.h, [&] { return c.to_json(); });
+        if (rank >= cells) {
+            return std::string("returned value is not one of the stored lattice values");
+        }
+        for (size_t k = N; k-- > 0;) {
+            uint64_t p = rank % c.ext[k];
+            rank /= c.ext[k];
+            ld d = std::fabs(ld(p) - ld(x[perm[k]]));
+            if (!(d <= 0.5L)) {
+                return "storage axis " + std::to_string(k) + " (outer component " + std::to_string(perm[k]) + "): x = " + ld_str(x[perm[k]]) + " returned the value stored at lattice coordinate " + std::to_string(p) + ", distance " + ld_str(d) + " > 1/2";
+            }
+        }
+        return std::nullopt;
+    }
+    static void campaign() { rc_campaign<Case>(name(), tier(1500, 100000), 100, OverArray<R, N, T>::gen(), run); }
+    static void reg()
+    {
+        add_inst(name(), campaign, [](const json & j) { return run(Case::from_json(j)); });
+    }
+};
+
 void register_all()
 {
+    OverShuffled<float, float, 1, 0>::reg();
+    OverShuffled<double, double, 2, 0, 1>::reg();
+    OverShuffled<float, double, 3, 1, 0, 2>::reg();
     OverIdentity<float, 1>::reg();
     OverIdentity<float, 2>::reg();
     OverIdentity<float, 3>::reg();
